@@ -41,6 +41,9 @@ type Settings struct {
 	// the frame this Settings was decoded from. It lets the receiver apply the
 	// window delta to open streams only when the value actually changed.
 	hasWindowSize bool
+	// hasTableSize does the same for SETTINGS_HEADER_TABLE_SIZE, for whoever
+	// owns the encoder the value is meant for.
+	hasTableSize bool
 }
 
 func (st *Settings) Type() FrameType {
@@ -59,6 +62,7 @@ func (st *Settings) Reset() {
 	st.rawSettings = st.rawSettings[:0]
 	st.ack = false
 	st.hasWindowSize = false
+	st.hasTableSize = false
 }
 
 // CopyTo copies st fields to st2.
@@ -72,6 +76,7 @@ func (st *Settings) CopyTo(st2 *Settings) {
 	st2.frameSize = st.frameSize
 	st2.headerSize = st.headerSize
 	st2.hasWindowSize = st.hasWindowSize
+	st2.hasTableSize = st.hasTableSize
 }
 
 // SetHeaderTableSize sets the maximum size of the header
@@ -184,6 +189,7 @@ func (st *Settings) Read(d []byte) error {
 		switch key {
 		case HeaderTableSize:
 			st.tableSize = value
+			st.hasTableSize = true
 		case EnablePush:
 			if value != 0 && value != 1 {
 				return NewGoAwayError(ProtocolError, "wrong value for SETTINGS_ENABLE_PUSH")
